@@ -34,6 +34,7 @@ const poisonByte = 0xA5
 
 func runRecv(c RecvCase) *evid.Failure {
 	env := rawpeer.NewEnv(c.Env)
+	defer env.Close()
 	l, s, p, err := env.Passive(80, 50000, c.ISS, rawpeer.SynOpts{MSS: 1460, WS: c.WS, TS: c.TS, SACKPerm: c.Env.SACK}, 65535)
 	if l != nil {
 		defer l.EP.Close()
